@@ -30,11 +30,21 @@ python3 - "$DIR" "$PATCH" "$NAME" "[${RES%,}]" <<'PY'
 import json,sys
 d,patch,name,res=sys.argv[1:5]
 meta={}
-try:
+import os
+prev=f"/verif/benign/{name}/meta.json"
+if os.path.exists(prev):
+    try:
+        meta=json.load(open(prev))
+        if "checks" in meta and "first_run_checks" not in meta and not meta.get("quiet", True):
+            meta["first_run_checks"]=meta["checks"]
+            meta.setdefault("resolution","alarm removed by canonicalising the correspondence (see DESIGN.md 11.7 and the property's docs); re-run below")
+    except Exception: meta={}
+if not meta:
+  try:
     m=json.load(open(f"{d}/meta.json"))
     for p in m.get("patches",[]):
         if p.get("file")==patch: meta=p
-except Exception as e: meta={"note":"agent meta unreadable: %s"%e}
+  except Exception as e: meta={"note":"agent meta unreadable: %s"%e}
 meta["checks"]=json.loads(res)
 meta["quiet"]=all(c["exit"]==0 and c["violation_lines"]==0 for c in meta["checks"])
 meta["what_was_run"]="tools/benign_run.sh: fresh worktree of /repo HEAD, git apply, cargo test --workspace (0 failed), QV_REPO=<worktree> ./check <prop> --tier quick for each listed property"
